@@ -105,7 +105,7 @@ func gitPatchDelta(src, delta []byte) verdict {
 	remaining := tsize
 	var out []byte
 	if !dry {
-		out = make([]byte, 0, int(tsize))
+		out = make([]byte, 0, int(min(tsize, 1<<16)))
 	}
 	top := len(delta)
 	for pos < top {
